@@ -3,7 +3,7 @@
 cd /verif
 rm -rf /tmp/evidence_backup && cp -r evidence /tmp/evidence_backup   # seeded runs must not overwrite the committed evidence
 for d in ${@:-$(ls seeded)}; do
-  P=$(python3 -c "import json;print(json.load(open('seeded/$d/meta.json'))['property'])")
+  P=${PROP:-$(python3 -c "import json;print(json.load(open('seeded/$d/meta.json'))['property'])")}
   git -C /repo apply /verif/seeded/$d/patch.diff 2>/dev/null || { echo "$d: PATCH DOES NOT APPLY"; continue; }
   OUT=$(./check $P 2>&1); RC=$?
   git -C /repo checkout -- .
